@@ -588,6 +588,57 @@ func main() {
 		}(k)
 	}
 	wg.Wait()
+	// a goroutine census that did not return to baseline within the polling bound is timing-dependent too: it counts
+	// only if the input, re-run alone 3 times in fresh workers (10x longer polling bound), leaves goroutines behind
+	// every time
+	leaksDropped := 0
+	if harnessErr == "" && len(seedFail) == 0 {
+		var ids []int
+		for id, res := range results {
+			if len(res.Leaked) > 0 {
+				ids = append(ids, id)
+			}
+		}
+		sort.Ints(ids)
+		if len(ids) > 300 {
+			r.Cap(fmt.Sprintf("%d inputs left goroutines behind in the first pass; only the first 300 were re-run", len(ids)))
+			for _, id := range ids[300:] {
+				res := results[id]
+				res.Leaked = nil
+				results[id] = res
+			}
+			ids = ids[:300]
+		}
+		var lwg sync.WaitGroup
+		for _, id := range ids {
+			lwg.Add(1)
+			go func(id int) {
+				defer lwg.Done()
+				in := byID[id]
+				confirmedLeak := 0
+				var last []string
+				for i := 0; i < 3; i++ {
+					s := solo(in, fmt.Sprintf("leak-%d-%d", id, i))
+					if len(s.Results) == 1 && len(s.Results[0].Leaked) > 0 {
+						confirmedLeak++
+						last = s.Results[0].Leaked
+					}
+				}
+				mu.Lock()
+				res := results[id]
+				if confirmedLeak == 3 {
+					res.Leaked = last
+				} else {
+					res.Leaked = nil
+					leaksDropped++
+				}
+				results[id] = res
+				mu.Unlock()
+			}(id)
+		}
+		lwg.Wait()
+	}
+	r.Extra["goroutine_leak_suspects_not_reproduced_in_3_solo_reruns"] = leaksDropped
 	pl.close()
 	if len(seedFail) > 0 {
 		// the ingest side does not even serve a valid push any more: every worker fails the same way during warm-up
